@@ -177,7 +177,12 @@ impl Divan {
         };
 
         let tree_painter = RefCell::new(TreePainter::new(
-            EntryTree::max_name_span(&tree, 0),
+            EntryTree::max_name_span(
+                &tree,
+                0,
+                self.bench_options.threads.as_deref(),
+                None,
+            ),
             column_widths,
         ));
 
@@ -350,19 +355,8 @@ impl Divan {
             return;
         }
 
-        let mut thread_counts: Vec<NonZeroUsize> = options
-            .threads
-            .as_deref()
-            .unwrap_or_default()
-            .iter()
-            .map(|&n| match NonZeroUsize::new(n) {
-                Some(n) => n,
-                None => crate::util::known_parallelism(),
-            })
-            .collect();
-
-        thread_counts.sort_unstable();
-        thread_counts.dedup();
+        let thread_counts: Vec<NonZeroUsize> =
+            crate::util::thread_counts(options.threads.as_deref());
 
         let thread_counts: &[NonZeroUsize] = if thread_counts.is_empty() {
             &[NonZeroUsize::MIN]
